@@ -15,6 +15,7 @@ import YtkModel.Generated.Constants
 import YtkProofs.DocSetFiles
 import YtkProofs.DocSet
 import YtkProofs.DecisionsDocSet
+import YtkProofs.FuncsDomDocSet
 import YtkProofs.FuncsLemmas
 
 namespace Ytk.C18
@@ -365,9 +366,22 @@ theorem Unique_generated_eq_model (xs : List String) : Funcs.Unique xs = DocSet.
 
 end Ytk.C18
 
+/-! ## xlate7d: the REGENERATED translation of `containsAnyOf` (the tag test of TaggedSubset) -/
+namespace Ytk.C18
+open Ytk.Generated
+
+theorem containsAnyOf_generated_eq_model (col cs : List String) :
+    FuncsAnalytics.containsAnyOf col cs = DocSet.containsAnyOf col cs :=
+  FuncsDomDocSet.containsAnyOf_generated_eq_model col cs
+
+theorem nonvacuous_containsAnyOf_generated :
+    FuncsAnalytics.containsAnyOf ["x", "prod"] ["prod", "dev"] = true ∧ FuncsAnalytics.containsAnyOf ["x"] ["prod"] = false := by
+  decide +kernel
 /-! ## The file walkers of the document set (brief mext7c): AddDocumentFromFile, AddDocumentsFromDirectory,
     AddDocumentsFromManifest over the model of YtkModel/DocSetFiles.lean.  Each found file / manifest item is
     one `DocSet.step` of the model above. -/
+end Ytk.C18
+
 namespace Ytk.C18
 open Ytk.DocSet Ytk.DocSetFiles
 
